@@ -214,6 +214,90 @@ func c11Catalogue(c *ev.Ctx) (entries []c11Entry, core int) {
 			return ev.Sum(buf.Bytes()) + "/" + ev.Sum(p), [][]byte{buf.Bytes(), p}
 		})
 	}
+	// stepwise playback: every picture handed out by NextFrame is kept (not copied) and re-hashed after each
+	// later NextFrame / Reset / Canvas call on the same decoder; dispose/blend flag orders that make the
+	// decoder save, restore and clear its canvas between steps
+	small := []*image.NRGBA{img.Gen(r, "tiles", "binary", 16, 12), img.Gen(r, "photo", "gradient", 12, 16), img.Gen(r, "pal4", "opaque", 20, 20), img.Gen(r, "noise", "levels3", 8, 8), img.Gen(r, "flat", "gradient", 14, 10)}
+	var smallBS [][]byte
+	for _, m := range small {
+		smallBS = append(smallBS, riffChunks(mk(m, opt(func(o *webp.EncoderOptions) { o.Lossless = true; o.Exact = true })))["VP8L"])
+	}
+	for v := 0; v < 6; v++ {
+		v := v
+		flags := make([][2]int, len(smallBS)) // (dispose, blend) per frame; every variant has a None->Background step
+		for k := range flags {
+			flags[k] = [2]int{(k + v) % 2, (k/2 + v/2) % 2}
+		}
+		if v >= 4 {
+			for k := range flags {
+				flags[k] = [2]int{r.Intn(2), r.Intn(2)}
+			}
+		}
+		offs := make([][2]int, len(smallBS))
+		for k := range offs {
+			offs[k] = [2]int{2 * r.Intn(6), 2 * r.Intn(6)}
+		}
+		add(fmt.Sprintf("animdec/stepwise/v%d", v), func() (string, [][]byte) {
+			m := mux.NewMuxer()
+			m.SetCanvasSize(32, 32)
+			for k, bs := range smallBS {
+				if err := m.AddFrame(bs, &mux.FrameOptions{Duration: 20 + k, OffsetX: offs[k][0], OffsetY: offs[k][1], DisposeMode: mux.DisposeMode(flags[k][0]), BlendMode: mux.BlendMode(flags[k][1])}); err != nil {
+					return errDigest(err), nil
+				}
+			}
+			var b bytes.Buffer
+			if err := m.Assemble(&b); err != nil {
+				return errDigest(err), nil
+			}
+			an, err := animation.DecodeBytes(b.Bytes())
+			if err != nil {
+				return errDigest(err), nil
+			}
+			if err := an.DecodeFrames(); err != nil {
+				return errDigest(err), nil
+			}
+			d, err := animation.NewAnimDecoder(an)
+			if err != nil {
+				return errDigest(err), nil
+			}
+			var keptPix [][]byte
+			var keptSum []string
+			recheck := func(after string) string {
+				for k, p := range keptPix {
+					if ev.Sum(p) != keptSum[k] {
+						return fmt.Sprintf("%spicture %d returned by NextFrame was modified by %s (flags dispose,blend=%v)", c11SelfViol, k, after, flags)
+					}
+				}
+				return ""
+			}
+			all := ""
+			for round := 0; round < 2; round++ {
+				step := 0
+				for d.HasNext() {
+					f, _, err := d.NextFrame()
+					if err != nil {
+						return errDigest(err), nil
+					}
+					if v := recheck(fmt.Sprintf("NextFrame #%d (round %d)", step, round)); v != "" {
+						return v, nil
+					}
+					keptPix = append(keptPix, f.Pix)
+					keptSum = append(keptSum, ev.Sum(f.Pix))
+					all += ev.Sum(f.Pix)[:8]
+					step++
+				}
+				cv := d.Canvas()
+				if cv != nil {
+					all += ev.Sum(cv.Pix)[:8]
+				}
+				d.Reset()
+				if v := recheck(fmt.Sprintf("Reset (round %d)", round)); v != "" {
+					return v, nil
+				}
+			}
+			return ev.Sum([]byte(all)), keptPix
+		})
+	}
 	add("mux/assemble+demux", func() (string, [][]byte) {
 		m := mux.NewMuxer()
 		ch := riffChunks(fLossless)
@@ -232,6 +316,9 @@ func c11Catalogue(c *ev.Ctx) (entries []c11Entry, core int) {
 	})
 	return entries, core
 }
+
+// c11SelfViol prefixes the digest of a stateful entry that saw one of its own earlier results change.
+const c11SelfViol = "!returned-value-modified: "
 
 // ---- child side
 
@@ -339,7 +426,9 @@ func c11Worker(args []string) int {
 				out.Encode(c11Msg{Kind: "viol", I: hi, Class: "panic", History: names, Detail: p})
 				break
 			}
-			if d != refs[ei] {
+			if strings.HasPrefix(d, c11SelfViol) {
+				out.Encode(c11Msg{Kind: "viol", I: hi, Class: "returned-value-modified", History: append([]string{}, names...), Detail: strings.TrimPrefix(d, c11SelfViol)})
+			} else if d != refs[ei] {
 				out.Encode(c11Msg{Kind: "viol", I: hi, Class: "history-dependent", History: append([]string{}, names...),
 					Detail: fmt.Sprintf("step %d (%s): result %q, as the first call of a fresh process %q (gc-disabled=%v)", step, entries[ei].Name, d, refs[ei], gcOff)})
 			}
@@ -416,6 +505,9 @@ func runC11(c *ev.Ctx) {
 				return
 			}
 			refs[i] = m.Digest
+			if strings.HasPrefix(m.Digest, c11SelfViol) { // a stateful entry found one of its own results modified, even in a fresh process
+				c.Violate(ev.Case{Idx: i, Desc: entries[i].Name}, "returned-value-modified", map[string]string{"entry": entries[i].Name}, strings.TrimPrefix(m.Digest, c11SelfViol), nil)
+			}
 		}(i)
 	}
 	wg.Wait()
